@@ -228,7 +228,17 @@ def z1_framing(prog, ctx, wc):
                     ctx.fail("Z1", pth.exit_node or f, f._qualname, "path %s" % pth.describe()[:80], "a record is deserialised (%s) on a path that "
                              "has not established its kind" % des)
                 continue
-            if not des and len(rids) == 1:
+            raw = [c for c in calls if c and c.split(".")[-1] in ("read_int", "read_string", "read_int_neg", "read_short_int", "read_list",
+                                                                      "read_dict", "read_bool_array", "read_string_or_none", "seek")]
+            if not des and raw and kind == "is_gene_info" and cls.startswith("Normal"):
+                # the full loader consumes the record with primitive reads and hands back something else than the decoded record
+                if (kind, "bad") not in seen:
+                    ctx.fail("Z1", pth.exit_node or f, f._qualname, "%s record skipped: %s" % (kind, pth.describe()[:80]),
+                             "after %s() the loader consumes the record with primitive reads (%s) instead of %s and returns an object that "
+                             "was not decoded from it: a saved record is replaced by an earlier one whenever the skipped fields differ"
+                             % (kind, sorted(set(raw)), want[kind]))
+                seen[(kind, "bad")] = True
+            elif not des and len(rids) == 1:
                 # the record is decoded through a call the analysis cannot resolve (a method picked into a variable, a dispatch table)
                 if (kind, "bad") not in seen:
                     ctx.undecided("Z1", pth.exit_node or f, f._qualname, "after %s() no call of %s is visible on the path (decoded through an "
@@ -1087,6 +1097,11 @@ def run(prog, ctx):
     n_pk = z1_pickle_state(prog, ctx)
     pairs = z2_codecs(prog, ctx, wc)
     z3_fields(prog, ctx, wc, trees)
+    ctx.rule("Z10", "rule R7 of C07 run for C15: an intermediate stream that is opened in append mode is truncated by its owner / by the same module "
+                    "(a reader that stops at the first end-of-stream marker must find THIS run's records there)")
+    from . import c07 as _c07z
+    _c07z.r7(prog, ctx, tag="Z10", why="records of an earlier run into the same folder stay in front of this run's records; the loader stops at "
+             "the first end-of-stream marker and applies the earlier run's content")
     ctx.rule("Z8", "no try-block of the writers of the intermediate files catches an exception around a serialize() / write_*() call without "
                    "re-raising (a partial record would shift everything behind it)")
     z8_no_partial_records(prog, ctx)
